@@ -304,6 +304,34 @@ Theorem C07_delaunay_symmetric : forall pts i j, delaunay_adj pts i j = delaunay
 Proof. exact delaunay_adj_sym. Qed.
 Print Assumptions C07_delaunay_symmetric.
 
+(* TRANSLATION VALIDATION of the implementation's triangulation (op Cert: the triangles exported by
+   VoronoiGrid.triangulation, checked by vm_compute in every Cases run): if delaunay_cert accepts them, then
+   i-j is an edge of some exported triangle iff i <> j and some third centroid spans with them a proper circle
+   with no centroid strictly inside (exact integer tests) ... *)
+Theorem C07_voronoi_cert_sound : forall pts tris, delaunay_cert pts tris = true ->
+  forall i j, In i (idxs pts) -> In j (idxs pts) ->
+  (tri_adj tris i j = true <->
+   i <> j /\ exists k, In k (idxs pts) /\ k <> i /\ k <> j /\
+                       empty_circle pts (pnt pts i) (pnt pts j) (pnt pts k) = true).
+Proof. exact cert_sound. Qed.
+Print Assumptions C07_voronoi_cert_sound.
+
+(* ... i.e. (more than two centroids) the certified triangulation has exactly the edges of the specification
+   the connections are compared with *)
+Theorem C07_voronoi_cert_delaunay : forall pts tris,
+  delaunay_cert pts tris = true -> Z.of_nat (length pts) <> 2 ->
+  forall i j, In i (idxs pts) -> In j (idxs pts) -> tri_adj tris i j = delaunay_adj pts i j.
+Proof. exact cert_delaunay. Qed.
+Print Assumptions C07_voronoi_cert_delaunay.
+
+Example C07_example_cert :
+  let pts := [(0, 0); (4, 0); (0, 4); (4, 4); (2, 1)] in
+  delaunay_cert pts [(4, 0, 1); (4, 1, 3); (4, 3, 2); (4, 2, 0)] = true /\
+  delaunay_cert pts [(4, 0, 1); (4, 1, 3); (4, 3, 2)] = false /\
+  delaunay_cert pts [(0, 1, 3); (0, 3, 2); (4, 0, 1)] = false /\
+  tri_adj [(4, 0, 1); (4, 1, 3); (4, 3, 2); (4, 2, 0)] 2 0 = true.
+Proof. vm_compute. repeat split; reflexivity. Qed.
+
 (* non-vacuity *)
 Example C07_example_grid :
   connect_nd true [1; 2; 4] [0; 1; 3] [-1; 1; 1] = Some [0; 0; 0] /\
